@@ -1,6 +1,8 @@
 package props
 
 import (
+	"crypto/x509/pkix"
+	"encoding/asn1"
 	"encoding/hex"
 	"fmt"
 	mrand "math/rand"
@@ -434,6 +436,19 @@ func c03(x *mon.Ctx) {
 			fakeRoot := world.Issue(func() *x509Cert { t := world.RootTemplate(world.Far); return t }(), base.PKI.Root, world.NewKey())
 			under := world.Issue(world.TcbSignTemplate(world.Far), fakeRoot, world.NewKey())
 			resigned("signer-under-root-named-intermediate", under, fakeRoot, "reject")
+			// a certificate the trusted root issued for another role whose subject carries SEVERAL commonName attributes: the
+			// signing name first, its real name last (a name is what the whole subject says, here: what x509 reports as the
+			// common name; a matching attribute somewhere inside is no name)
+			for _, real := range []string{world.CNPlatform, world.CNPck, "Some Other Service"} {
+				t := world.TcbSignTemplate(world.Far)
+				if real == world.CNPlatform {
+					t = world.InterTemplate(real, world.Far)
+				}
+				t.Subject = pkix.Name{ExtraNames: []pkix.AttributeTypeAndValue{
+					{Type: asn1.ObjectIdentifier{2, 5, 4, 3}, Value: world.CNTcbSign}, {Type: asn1.ObjectIdentifier{2, 5, 4, 10}, Value: "Intel Corporation"},
+					{Type: asn1.ObjectIdentifier{2, 5, 4, 6}, Value: "US"}, {Type: asn1.ObjectIdentifier{2, 5, 4, 3}, Value: real}}}
+				resigned("signer-other-role-signing-name-among-several-cn/"+real, world.Issue(t, base.PKI.Root, world.NewKey()), base.PKI.Root, "reject")
+			}
 			// positive control: a second, genuine TCB-signing certificate issued by the trusted root
 			second := world.Issue(world.TcbSignTemplate(world.Far), base.PKI.Root, world.NewKey())
 			resigned("control-second-genuine-signer", second, base.PKI.Root, "accept")
